@@ -140,6 +140,20 @@ pub fn run(t: &[&str]) -> String {
             }
         },
     };
+    // a rewritten Hermes map (sources renumbered by first use, unreferenced ones dropped, the parsed and the raw
+    // function-map table re-slotted) is a Hermes map like any other: its answers survive serialise-and-decode too
+    if let Ok(rw) = smh.clone().rewrite(&sourcemap::RewriteOptions::default()) {
+        let set_rw = answers(&rw, &[]).1;
+        let mut out2 = vec![];
+        match rw.to_writer(&mut out2).ok().and_then(|_| SourceMapHermes::from_slice(&out2).ok()) {
+            Some(rw2) => {
+                if answers(&rw2, &[]).1 != set_rw {
+                    return "err rewritten-roundtrip-differs".into();
+                }
+            }
+            None => return "err rewritten-unreadable".into(),
+        }
+    }
     let mut all = vec!["T".to_string()];
     all.extend(ta);
     all.push("O".into());
